@@ -535,6 +535,14 @@ static void c19_value(Case& cs) {
   if (have_ref) for (auto& o : ref_content) apply_op(ref, o, &ref_idx);
   unsigned m = (unsigned)c.range(1, 8);
   bool readd_existing = false;
+  if (c.range(0, 3) == 0) {
+    // the first thing that happens to a table of the copy is the low-level, non-de-duplicating append (what the reader itself uses)
+    StringItem it; it.data = "appended-by-add_value-" + std::to_string(c.range(0, 9));
+    bool ip = c.coin();
+    { StringItem x = it; if (ip) copy->m_ip_address.add_value(std::move(x)); else copy->m_name_rdata.add_value(std::move(x)); }
+    if (have_ref) { StringItem x = it; if (ip) ref.m_ip_address.add_value(std::move(x)); else ref.m_name_rdata.add_value(std::move(x)); }
+    cs.st.cls("copy_first_touched_by_add_value");
+  }
   for (unsigned i = 0; i < m; i++) {
     ContentOp o;
     bool again = !content.empty() && c.coin();
